@@ -106,7 +106,7 @@ def run_check(module, prop, cfg_fn, harvest_cfgs, args, budgets, notes):
     common.warmup()
     run_seed = make_runner(prop, cfg_fn)
     if args.digests:
-        return common.digests_mode(run_seed, args.digests, wall=240, batch=3, reset=_reset)
+        return common.digests_mode(run_seed, args.digests, wall=90, batch=3, reset=_reset)
     seed = base_seed()
     rep = common.Report(prop, args.tier, seed)
     B = budgets[args.tier]
@@ -115,14 +115,14 @@ def run_check(module, prop, cfg_fn, harvest_cfgs, args, budgets, notes):
     seeds = [derive_seed(seed, prop, i) % (1 << 40) for i in range(n_runs)]
 
     ok, info = common.determinism_selftest(
-        module, run_seed, seeds[: B["selftest"]], args.workers, wall=240, batch=4, reset=_reset
+        module, run_seed, seeds[: B["selftest"]], args.workers, wall=90, batch=4, reset=_reset
     )
     if not ok:
         rep.harness_error("determinism self-test failed: " + json.dumps(info)[:900])
 
     # ---- generated sessions ------------------------------------------- #
     t0 = time.time()
-    recs = common.explore(run_seed, seeds, args.workers, wall=240, budget=budget, batch=B.get("batch", 25), reset=_reset)
+    recs = common.explore(run_seed, seeds, args.workers, wall=90, budget=budget, batch=B.get("batch", 25), reset=_reset)
     wall_gen = time.time() - t0
 
     digests, nontrivial = set(), set()
